@@ -602,6 +602,14 @@ func ruleC11f(c *Ctx) {
 				if _, ok := fieldLoadIs(s, spec.owner, spec.field); ok {
 					fromList = true
 				}
+				// the list read through an accessor method of the owner
+				if call, ok := s.(*ssa.Call); ok && call.Call.StaticCallee() != nil && recvTypeName(call.Call.StaticCallee()) == spec.owner {
+					for _, a := range p.fieldAccesses(call.Call.StaticCallee()) {
+						if a.Kind == "load" && a.Field.Name() == spec.field {
+							fromList = true
+						}
+					}
+				}
 			}
 			if !fromList {
 				return
